@@ -79,6 +79,9 @@ def cases_requests(tier):
                     yield "%s/R%dP%dN%dK%d/%s" % (kind, R, P, N, K, "transform" if tr else "plain"), {"kind": kind, "R": R, "P": P, "N": N, "B": B, "K": K, "tr": tr}
             # a realization whose objective is NaN while its constraint is not (and vice versa), with objective/constraint transforms
             yield "%s/R%dP%dN%dK1/objective-nan/function-transforms" % (kind, R, P, N), {"kind": kind, "R": R, "P": P, "N": N, "B": B, "K": 1, "tr": False, "fail": "objective", "otr": True}
+            if (R, P, N) == (2, 1, 1):
+                for only in ("objective-only", "constraint-only"):
+                    yield "%s/R%dP%dN%dK1/function-transforms-%s" % (kind, R, P, N, only), {"kind": kind, "R": R, "P": P, "N": N, "B": B, "K": 1, "tr": False, "otr": only}
             yield "%s/R%dP%dN%dK1/objective-nan" % (kind, R, P, N), {"kind": kind, "R": R, "P": P, "N": N, "B": B, "K": 1, "tr": False, "fail": "objective", "otr": False}
             yield "%s/R%dP%dN%dK1/constraint-nan" % (kind, R, P, N), {"kind": kind, "R": R, "P": P, "N": N, "B": B, "K": 1, "tr": True, "fail": "constraint", "otr": False}
         if kind == "functions":
@@ -136,11 +139,16 @@ def scn_requests(T, case):
     sev = Ev(T, ch, fobj, fcon if K else None)
     import types as _t
 
-    ko = T.real("objective_scale", (), lo=0.5, hi=2.0) if case.get("otr") else None
-    otr = _t.SimpleNamespace(to_optimizer=lambda o: o * ko) if case.get("otr") else None
-    ctr = _t.SimpleNamespace(to_optimizer=lambda c: c * ko) if case.get("otr") and K else None
+    # function transforms: both, or only one of them (the other member of the transforms object left at None)
+    with_o = case.get("otr") in (True, "objective-only")
+    with_c = case.get("otr") in (True, "constraint-only") and bool(K)
+    ko = T.real("objective_scale", (), lo=0.5, hi=2.0) if with_o else None
+    kc = T.real("constraint_scale", (), lo=0.5, hi=2.0) if with_c else None
+    otr = _t.SimpleNamespace(to_optimizer=lambda o: o * ko) if with_o else None
+    ctr = _t.SimpleNamespace(to_optimizer=lambda c: c * kc) if with_c else None
     transforms = _t.SimpleNamespace(variables=_Tr(scale) if case["tr"] else None, objectives=otr, nonlinear_constraints=ctr) if (case["tr"] or case.get("otr")) else None
-    to_o = (lambda v: v * ko) if case.get("otr") else (lambda v: v)
+    to_o = (lambda v: v * ko) if with_o else (lambda v: v)
+    to_c = (lambda v: v * kc) if with_c else (lambda v: v)
     ev = H.make_evaluator(T, ch, cfg, sev, samplers=[H.FakeSampler(S)], transforms=transforms)
     user = (lambda v: v * scale) if case["tr"] else (lambda v: v)
     px = lambda r, p: x + S[r, p]  # noqa: E731  (magnitude 1, boundary type NONE)
@@ -187,14 +195,14 @@ def scn_requests(T, case):
         if hasattr(e, "perturbed_objectives"):
             T.prove(PFX + ".values.perturbed_values_are_the_evaluator_values_of_the_labelled_rows",
                     T.all([T.same(e.perturbed_objectives[r, p], to_o(tabO[0, r, p + 1])) for r in ok_rows for p in range(P)])
-                    & (T.all([T.same(e.perturbed_constraints[r, p], to_o(tabC[0, r, p + 1])) for r in ok_rows for p in range(P)]) if K else True))
+                    & (T.all([T.same(e.perturbed_constraints[r, p], to_c(tabC[0, r, p + 1])) for r in ok_rows for p in range(P)]) if K else True))
             T.prove(PFX + ".values.reported_perturbed_variables_are_those_evaluated", T.all([T.same(e.perturbed_variables[r, p], px(r, p)) for r in range(R) for p in range(P)]))
             if fail:
                 T.prove(PFX + ".values.rows_of_failed_entries_are_nan", T.all([T.np.isnan(e.perturbed_objectives[0, p, 0]) for p in range(P)]) & (T.all([T.np.isnan(e.perturbed_constraints[0, p, 0]) for p in range(P)]) if K else True))
         else:
             b = ridx if case["kind"] == "functions" else 0
             T.prove(PFX + ".values.function_values_are_the_evaluator_values_of_the_labelled_rows",
-                    T.all([T.same(e.objectives[r], to_o(tabO[b, r, 0])) for r in ok_rows]) & (T.all([T.same(e.constraints[r], to_o(tabC[b, r, 0])) for r in ok_rows]) if K else True))
+                    T.all([T.same(e.objectives[r], to_o(tabO[b, r, 0])) for r in ok_rows]) & (T.all([T.same(e.constraints[r], to_c(tabC[b, r, 0])) for r in ok_rows]) if K else True))
             T.prove(PFX + ".values.reported_variables_are_those_evaluated", T.same(e.variables, xs[b]))
             if fail:
                 T.prove(PFX + ".values.rows_of_failed_entries_are_nan", T.np.isnan(e.objectives[0, 0]) & (T.np.isnan(e.constraints[0, 0]) if K else True))
